@@ -281,5 +281,27 @@ for cat in simple:
         m = re.search(r'OpenSSH (\d[\d.]*)', line[0]) if line else None
         if not m or m.group(1) != want:
             fail({'category': cat, 'algorithms': [a, b], 'first appeared': [va, vb]}, line[:1], 'compatibility from OpenSSH %%s (the numerically latest first-appeared version)' %% want, 'compat-from')
+# (c) ... and ends at the numerically earliest removal version among the advertised algorithms that were removed from the server
+removed = {}
+for cat in ('kex', 'enc', 'mac'):
+    for n, e in DB[cat].items():
+        vs = e[0]
+        if len(vs) >= 2 and vs[0] and vs[1] and re.match(r'^\d[\d.]*$', vs[1]) and re.match(r'^\d[\d.]*(,.*)?$', vs[0]):
+            removed.setdefault(cat, []).append((n, vs[0].split(',')[0], vs[1]))
+for cat in removed:
+    names = removed[cat]
+    pairs = [(names[i], names[j]) for i in range(len(names)) for j in range(i + 1, len(names))]
+    r.shuffle(pairs)
+    for (a, sa, ta), (b, sb, tb) in pairs[:25]:
+        cases += 1
+        p = dict(base); p[cat] = [a, b]
+        kex = H.make_kex(p['kex'], p['key'], p['enc'], p['mac'])
+        st, text = H.run_output(kex=kex, banner='SSH-2.0-OpenSSH_6.0')
+        line = [l for l in text.split('\n') if l.startswith('(gen) compatibility:')]
+        want_till = min([ta, tb], key=vt)
+        m = re.search(r'OpenSSH (\d[\d.]*)(?:-(\d[\d.]*)|\+ \(some functionality from (\d[\d.]*)\))?', line[0]) if line else None
+        got_till = (m.group(2) or m.group(3)) if m else None
+        if got_till != want_till:
+            fail({'category': cat, 'algorithms': [a, b], 'removed in': [ta, tb]}, line[:1], 'compatibility until OpenSSH %%s (the numerically earliest removal)' %% want_till, 'compat-till')
 print(json.dumps({'cases': cases, 'failures': failures}))
 '''
